@@ -37,7 +37,7 @@ ObsKind(o) == IF o.kind = "rootopt" THEN "opt" ELSE IF o.kind = "root405" THEN "
 R == Ev.r
 SameReply(o) == /\ ObsKind(o) = R.kind /\ o.h = R.h /\ o.pat = R.pat /\ o.params = R.params
                 /\ o.rname = R.rname /\ o.urlPath = R.urlPath
-EscKind(v) == IF v = "error" THEN "error" ELSE IF v = "runtime" THEN "runtime" ELSE "other"
+EscKind(v) == IF v \in {"error", "abort"} THEN "error" ELSE IF v = "runtime" THEN "runtime" ELSE "other"
 IsPrefixSeq(a, b) == Len(a) <= Len(b) /\ \A i \in 1..Len(a) : a[i] = b[i]
 
 TrServe ==
